@@ -189,3 +189,19 @@ Definition argv_info (argv : list str) : Z :=
       end
   | _ => 0
   end.
+
+(* ---- the --dump mode: which printers run, in which order, for a minidump whose streams answer as given
+   (name, 0 = Ok | 1 = Err(StreamNotFound) | 2 = another error); over the program regenerated from main.rs (Gen/C20DumpProg.v).
+   Answer: (0, "") the header | (1, T) T::print | (2, text) fixed text | (3, name) print_raw_stream *)
+From RM Require Import C20.DumpSpec C20.DumpModel.
+From RM Require Gen.C20DumpProg.
+Definition view_of (l : list (str * Z)) : dump_view :=
+  fun t => match find (fun kv => str_eqb (fst kv) t) l with
+           | Some kv => if snd kv =? 0 then SPresent else if snd kv =? 2 then SBroken else SMissing
+           | None => SMissing
+           end.
+Definition dump_case (l : list (str * Z)) : list (Z * str) :=
+  map (fun s => match s with
+                | SecHeader => (0, "") | SecStream t => (1, t) | SecLit t => (2, t) | SecRaw n => (3, n)
+                end)
+      (sections RM.Gen.C20DumpProg.DUMP_PROG (view_of l)).
